@@ -227,8 +227,24 @@ func runDirected(o *hx.Out, r *hx.Rng, aim map[string]bool, thorough bool) {
 					variants = []string{hx.Pick(r, []string{"refined", "ow"})}
 				}
 			}
+			type vh struct {
+				variant string
+				hs      [][]string
+			}
+			plan := []vh{}
 			for _, variant := range variants {
-				for _, h := range hs {
+				plan = append(plan, vh{variant, hs})
+			}
+			// always: a nil-filling Overwrite under the histories that make nil acceptable (an accepted nil meets the overwrite
+			// checks only, /repo 7db47f1 — the one place where a nil path that skips the checks is still observable)
+			fillHs := [][]string{{}, {"Optional"}, {"Nilable"}}
+			if aimed || thorough {
+				fillHs = hists
+			}
+			plan = append(plan, vh{"owfill", fillHs})
+			for _, pl := range plan {
+				variant := pl.variant
+				for _, h := range pl.hs {
 					var schema, base any
 					applied := []string{"ctor:" + c.name, variant}
 					pm := hx.Safely(func() {
@@ -242,6 +258,12 @@ func runDirected(o *hx.Out, r *hx.Rng, aim map[string]bool, thorough bool) {
 							}
 						case "ow":
 							if s2, ok := applyStep(schema, step{"Overwrite", 0}, fs[0].dflt, nil); ok {
+								schema = s2
+							} else {
+								applied[1] = "plain"
+							}
+						case "owfill":
+							if s2, ok := applyStep(schema, step{"Overwrite", 7}, fs[0].dflt, nil); ok {
 								schema = s2
 							} else {
 								applied[1] = "plain"
